@@ -284,7 +284,7 @@ func (rr *Receiver) reorder(pkt *rtp.Packet) ([]*rtp.Packet, uint64) {
 
 	// there's a missing packet and buffer is full.
 	// return entire buffer and clear it.
-	if relPos >= int16(len(rr.buffer)) {
+	if int(relPos) >= len(rr.buffer) {
 		n := 1
 		for i := uint16(0); i < uint16(len(rr.buffer)); i++ {
 			p := (rr.absPos + i) & (uint16(len(rr.buffer)) - 1)
